@@ -309,7 +309,7 @@ func dominatedByLoopOver(fn *ssa.Function, b *ssa.BasicBlock, v ssa.Value) bool 
 		for _, ins := range h.Instrs {
 			if ia, ok := ins.(*ssa.IndexAddr); ok && strip(ia.X) == strip(v) {
 				// b must be inside the same cycle
-				if reachableBlocks(b.Succs, nil)[h] || returnsFrom(b) {
+				if reachableAfter(b, nil)[h] || returnsFrom(b) {
 					return true
 				}
 			}
